@@ -186,3 +186,20 @@ package k8s
 //@     invariant pod: pod != nil && fresh(pod) && pod.Labels != nil && fresh(pod.Labels)
 //@   loop 3:
 //@     invariant pod: pod != nil && fresh(pod) && 0 - 1 <= rangeindex
+
+// ---------------------------------------------------------------------------------------------
+// Namespace: a copy of the object's labels plus the automatic kubernetes.io/metadata.name label (C01)
+// ---------------------------------------------------------------------------------------------
+
+//@ func NamespaceFromCoreObject
+//@   requires ns != nil
+//@   ensures [C01,C12] ok: res1 == nil && res0 != nil && fresh(res0) && res0.Labels != nil && fresh(res0.Labels) && res0.Name == ns.Name
+//@   ensures [C01] labels: forall k string :: {k in res0.Labels} (k in res0.Labels) == ((ns.Labels != nil && k in ns.Labels) || k == "kubernetes.io/metadata.name")
+//@   ensures [C01] values: forall k string :: {res0.Labels[k]} (ns.Labels != nil && k in ns.Labels) ==> res0.Labels[k] == ns.Labels[k]
+//@   ensures [C01] auto: !(ns.Labels != nil && "kubernetes.io/metadata.name" in ns.Labels) ==> res0.Labels["kubernetes.io/metadata.name"] == ns.Name
+//@   ensures [C01] input: ns.Labels == old(ns.Labels)
+//@   loop 1:
+//@     invariant n: n != nil && fresh(n) && n.Labels != nil && fresh(n.Labels) && n.Name == ns.Name
+//@     invariant sub: forall k string :: {seen(k)} seen(k) ==> k in ns.Labels
+//@     invariant dom: forall k string :: {k in n.Labels} (k in n.Labels) == seen(k)
+//@     invariant vals: forall k string :: {n.Labels[k]} seen(k) ==> n.Labels[k] == ns.Labels[k]
